@@ -145,6 +145,11 @@ type Exec struct {
 	axiomSkipped  map[string]int
 	lastFieldWrites   []string
 	lastUnknownWrites bool
+	curCall           *ast.CallExpr
+	boundsOnly        bool
+	lastFieldWhole    map[string]bool // heap fields assigned as a whole (not only element-wise) in the last scanned loop body
+	lastWholeAssigned map[types.Object]bool // variables assigned as a whole (not only element-wise) in the last scanned loop body
+	loopOrdinals      map[ast.Node]int // static (source-order) ordinal of every loop of the unit under verification
 }
 
 func NewExec(w *World, c *Ctx) *Exec {
@@ -262,6 +267,11 @@ func (ex *Exec) havocLoopHeap(p *Path, fieldKeys []string, unknown bool) {
 		if t, ok := p.heap[k]; ok {
 			if s := ex.sortOfHeapTerm(t); s != "" {
 				p.heap[k] = ex.c.Fresh("H:"+k, s)
+				if ex.lastFieldWhole != nil && !ex.lastFieldWhole[k] && strings.HasPrefix(s, "(Array Ref |Slice:") {
+					// only element stores x.f[i] = v inside the loop: every length is unchanged
+					sl := "|slen:" + strings.TrimSuffix(strings.TrimPrefix(s, "(Array Ref |Slice:"), "|)") + "|"
+					p.Assume("(forall ((r Ref)) (= (" + sl + " (select " + p.heap[k] + " r)) (" + sl + " (select " + t + " r))))")
+				}
 				continue
 			}
 		}
@@ -550,6 +560,14 @@ func (ex *Exec) execStmt(p *Path, s ast.Stmt) []outcome {
 		return []outcome{{p: p}}
 	case *ast.DeferStmt:
 		// only `defer x.Close()`-like calls whose effect is outside the modelled state
+		switch f := st.Call.Fun.(type) {
+		case *ast.FuncLit:
+			ex.unsupp(st.Pos(), "deferred function literal")
+		case *ast.Ident:
+			if _, isBuiltin := ex.info.Uses[f].(*types.Builtin); isBuiltin {
+				ex.unsupp(st.Pos(), "deferred builtin %s", f.Name)
+			}
+		}
 		if ex.traceEvents {
 			p.events = append(p.events, Event{Name: "DEFER", Pos: st.Pos()})
 		}
@@ -681,7 +699,7 @@ func (ex *Exec) assignTo(p *Path, lhs ast.Expr, v Value) {
 			mk, dom, val, _ := ex.c.mapParts(base.Ty)
 			k := ex.convert(p, idx, bt.Key(), l.Pos())
 			nv := ex.convert(p, v, bt.Elem(), l.Pos())
-			if ex.safety {
+			if ex.safety && !ex.boundsOnly {
 				_, _, _, isnil := ex.c.mapParts(base.Ty)
 				ex.addObl(p, ex.funcKey+"#nopanic:nilmap@"+ex.siteLabel(l.Pos()), "safety", "assignment to entry in nil map", not(app(isnil, base.T)), l.Pos(), "")
 			}
@@ -972,15 +990,24 @@ func (ex *Exec) assignedIn(body ast.Node) (vars []types.Object, heapWrite bool) 
 	declared := map[types.Object]bool{}
 	ex.lastFieldWrites = nil
 	ex.lastUnknownWrites = false
+	ex.lastWholeAssigned = map[types.Object]bool{}
+	ex.lastFieldWhole = map[string]bool{}
 	ast.Inspect(body, func(n ast.Node) bool {
 		switch s := n.(type) {
 		case *ast.AssignStmt:
 			for _, l := range s.Lhs {
 				root := l
+				viaIndex := false
+				if id, ok := l.(*ast.Ident); ok {
+					if obj := ex.info.Uses[id]; obj != nil {
+						ex.lastWholeAssigned[obj] = true
+					}
+				}
 				for {
 					switch r := root.(type) {
 					case *ast.IndexExpr:
 						root = r.X
+						viaIndex = true
 						continue
 					case *ast.ParenExpr:
 						root = r.X
@@ -991,7 +1018,11 @@ func (ex *Exec) assignedIn(body ast.Node) (vars []types.Object, heapWrite bool) 
 							if pt, isPtr := t.Underlying().(*types.Pointer); isPtr {
 								heapWrite = true
 								if named, ok := types.Unalias(pt.Elem()).(*types.Named); ok {
-									ex.lastFieldWrites = append(ex.lastFieldWrites, ex.heapKey(named, r.Sel.Name))
+									hk := ex.heapKey(named, r.Sel.Name)
+									ex.lastFieldWrites = append(ex.lastFieldWrites, hk)
+									if _, isSl := ex.info.TypeOf(r).Underlying().(*types.Slice); !(viaIndex && isSl) {
+										ex.lastFieldWhole[hk] = true
+									}
 								} else {
 									ex.lastUnknownWrites = true
 								}
@@ -1040,6 +1071,29 @@ func (ex *Exec) assignedIn(body ast.Node) (vars []types.Object, heapWrite bool) 
 			if !ex.callIsHeapPure(s) {
 				heapWrite = true
 				ex.lastUnknownWrites = true
+			}
+			// map arguments of callees whose contract says `modifies <map parameter>` are assigned by the call
+			if fn := ex.calleeOf(s); fn != nil {
+				c := ex.w.Contracts[shortKey(fn)]
+				if c == nil && ex.emittedPkg(fn) {
+					c = ex.w.emittedContract(fn)
+				}
+				if c != nil {
+					for _, m := range c.Modifies {
+						for i, pn := range c.ParamNames {
+							if pn == m && i < len(s.Args) {
+								if id, ok := s.Args[i].(*ast.Ident); ok {
+									if obj := ex.info.Uses[id]; obj != nil && !seen[obj] {
+										if _, isMap := obj.Type().Underlying().(*types.Map); isMap {
+											seen[obj] = true
+											vars = append(vars, obj)
+										}
+									}
+								}
+							}
+						}
+					}
+				}
 			}
 		case *ast.RangeStmt:
 			if s.Tok == token.ASSIGN {
@@ -1178,6 +1232,10 @@ func (ex *Exec) havocVars(p *Path, vars []types.Object) {
 		v := Value{ex.c.Fresh("h:"+o.Name(), ex.c.SortOf(ty)), ty}
 		p.vars[o] = v
 		p.Assume(ex.c.typeInvariant(v))
+		if _, isSlice := ty.Underlying().(*types.Slice); isSlice && ok && ex.lastWholeAssigned != nil && !ex.lastWholeAssigned[o] {
+			// only element stores x[i] = v inside the loop: the length is unchanged
+			p.Assume(eq(ex.c.sliceLen(v), ex.c.sliceLen(cur)))
+		}
 		if _, isMap := ty.Underlying().(*types.Map); isMap && ok {
 			// entries are added or removed inside loops, the map itself is not replaced by nil
 			_, _, _, isnil := ex.c.mapParts(ty)
@@ -1207,8 +1265,9 @@ func (ex *Exec) assumeInvariants(p *Path, invs []*Clause) {
 func (ex *Exec) execRange(p *Path, st *ast.RangeStmt) []outcome {
 	ord := -1
 	if len(ex.inlineStack) == 0 {
-		ex.loopOrd++
-		ord = ex.loopOrd
+		if n, ok := ex.loopOrdinals[st]; ok {
+			ord = n
+		}
 	}
 	coll := ex.eval(p, st.X)
 	invs := ex.loopClauses(ord)
@@ -1384,8 +1443,9 @@ func (ex *Exec) execRange(p *Path, st *ast.RangeStmt) []outcome {
 func (ex *Exec) execFor(p *Path, st *ast.ForStmt) []outcome {
 	ord := -1
 	if len(ex.inlineStack) == 0 {
-		ex.loopOrd++
-		ord = ex.loopOrd
+		if n, ok := ex.loopOrdinals[st]; ok {
+			ord = n
+		}
 	}
 	if st.Init != nil {
 		outs := ex.execStmt(p, st.Init)
@@ -1490,7 +1550,12 @@ func (ex *Exec) boundsObl(p *Path, idx, length string, pos token.Pos) {
 }
 
 func (ex *Exec) nilObl(p *Path, v Value, pos token.Pos) {
-	if !ex.safety || ex.inContract() {
+	if ex.boundsOnly && !ex.inContract() && ex.quantFacts == nil {
+		// bounds mode: execution continues past a dereference only if it did not panic
+		p.Assume(not(ex.isNilTerm(v)))
+		return
+	}
+	if !ex.safety || ex.boundsOnly || ex.inContract() {
 		return
 	}
 	ex.addObl(p, ex.funcKey+"#nopanic:nil@"+ex.siteLabel(pos), "safety", "nil dereference", not(ex.isNilTerm(v)), pos, "")
